@@ -35,8 +35,12 @@ def run(ctx) -> None:
     compiled_with_own_config(ctx, "C01.R7.compiled-with-own-config")
     from ._matchrules import flags_end_to_end
     from ..models import Sym
-    flags_end_to_end(ctx, "C01.R7.flags-end-to-end", [
-        ("two instructions with operands", [{Sym("M1"): [Sym("O1"), Sym("O2")]}, Sym("M2"), {Sym("M3"): [Sym("O3")]}])])
+    pats = [("two instructions with operands", [{Sym("M1"): [Sym("O1"), Sym("O2")]}, Sym("M2"), {Sym("M3"): [Sym("O3")]}])]
+    if ctx.tier == "thorough":
+        # every skeleton of the quick family, from the constructor on, under each of the 4 flag settings
+        from ..skeletons import quick_family
+        pats += [(sk.label, sk.yaml()) for sk in quick_family()]
+    flags_end_to_end(ctx, "C01.R7.flags-end-to-end", pats)
     # R8: the listing the verdict is about is the file's text as Python's text mode reads it
     from ._matchrules import assembly_text_unmodified
     assembly_text_unmodified(ctx, "C01.R8.listing-text-unmodified")
